@@ -283,24 +283,24 @@ Proof.
 Qed.
 
 Lemma variant_err a p n ts ov b : is_capitalized n = false -> clean b (TIdent n :: ts) ->
-  assignable_variant T (C p (TK KDot :: TIdent n :: ts) ov b) a = err.
+  exists c' es, assignable_variant T (C p (TK KDot :: TIdent n :: ts) ov b) a = Ret (Err c' es).
 Proof.
   intros Hn Hc. unfold assignable_variant.
-  assert (X : forall e : name,
-    (if negb (is_capitalized e) then @err out
+  assert (X : forall e : name, exists c' es,
+    (if negb (is_capitalized e) then @praise out (C p (TK KDot :: TIdent n :: ts) ov b)
      else ptry (pexpect KDot (C p (TK KDot :: TIdent n :: ts) ov b))
             (fun c1 => match token c1 with
                        | TIdent v =>
-                           if negb (is_capitalized v) then err
-                           else let c2 := skip 1 c1 in
-                                ptry (ptry (expression T c2) ok (ok (ENil, c2)))
-                                     (fun '(value, c3) => ok (RA (AVariant a v value) c3)) err
-                       | _ => err
-                       end) err) = err).
-  { intros e. destruct (is_capitalized e); [|reflexivity]. cbn [negb].
+                           let c2 := skip 1 c1 in
+                           if negb (is_capitalized v) then praise c2
+                           else ptry (ptry (expression T c2) ok (fun _ _ => ok (ENil, c2)))
+                                     (fun '(value, c3) => ok (RA (AVariant a v value) c3)) reraise
+                       | _ => praise c1
+                       end) reraise) = Ret (Err c' es)).
+  { intros e. destruct (is_capitalized e); [|eexists; eexists; reflexivity]. cbn [negb].
     unfold pexpect, expect, is_k. cbn [token post tok_is kw_eqb]. rewrite skip1; [|discriminate|exact Hc].
-    cbn [ptry token post]. rewrite Hn. reflexivity. }
-  destruct a; try reflexivity; apply X.
+    cbn [ptry token post]. rewrite Hn. eexists. eexists. reflexivity. }
+  destruct a; try (eexists; eexists; reflexivity); apply X.
 Qed.
 
 Lemma sub_field a p n ts ov b f : is_capitalized n = false -> clean b ts ->
@@ -308,8 +308,8 @@ Lemma sub_field a p n ts ov b f : is_capitalized n = false -> clean b ts ->
   = go T f (QSub (AAccess a n) (C (TIdent n :: TK KDot :: p) ts ov b)).
 Proof.
   intros Hn Hc. rewrite go_S. cbn [step]. unfold step_sub. cbn [token post].
-  rewrite variant_err; [|exact Hn|split; [discriminate|intros _; discriminate]].
-  cbn [ptry err]. unfold assignable_dot.
+  destruct (variant_err a p n ts ov b Hn) as (c' & es & ->); [split; [discriminate|intros _; discriminate]|].
+  cbn [ptry]. unfold assignable_dot.
   rewrite skip1; [|discriminate|split; [discriminate|intros _; discriminate]].
   cbn [token post]. rewrite skip1; [|discriminate|exact Hc]. apply run_call.
 Qed.
@@ -411,39 +411,41 @@ Proof.
   apply follow_is_clean. exact F.
 Qed.
 
+Definition is_err {A : Type} (r : res A) : Prop := match r with Err _ _ => True | _ => False end.
+
 Lemma ta_inner_err ps : forall f p n acc ov b rest,
   lower_posts ps = true -> is_capitalized n = false -> follow b rest -> S (length (pp_posts ps)) <= f ->
-  type_assignable_inner f (C p (TIdent n :: pp_posts ps ++ rest) ov b) acc = Err.
+  is_err (type_assignable_inner f (C p (TIdent n :: pp_posts ps ++ rest) ov b) acc).
 Proof.
   induction ps as [|n' ps' IH|k ps' _|args ps' _]; intros f p n acc ov b rest L Hn F Hf;
     (destruct f as [|f]; [inversion Hf|]); cbn [type_assignable_inner token post]; rewrite Hn.
   - cbn [pp_posts app]. rewrite skip1; [|discriminate|apply follow_is_clean; exact F].
-    unfold expect. rewrite follow_not_dot by exact F. reflexivity.
+    unfold expect. rewrite follow_not_dot by exact F. exact I.
   - cbn [pp_posts app lower_posts] in *. apply andb_prop in L. destruct L as [L1 L2]. apply negb_true_iff in L1.
     rewrite skip1; [|discriminate|split; [discriminate|intros _; discriminate]].
     unfold expect, is_k. cbn [token post tok_is kw_eqb bind].
     rewrite skip1; [|discriminate|split; [discriminate|intros _; discriminate]].
     apply IH; [exact L2|exact L1|exact F|]. cbn [length] in Hf. lia.
-  - cbn [pp_posts app]. rewrite skip1; [|discriminate|split; [discriminate|intros _; discriminate]]. reflexivity.
-  - cbn [pp_posts app]. rewrite skip1; [|discriminate|split; [discriminate|intros _; discriminate]]. reflexivity.
+  - cbn [pp_posts app]. rewrite skip1; [|discriminate|split; [discriminate|intros _; discriminate]]. exact I.
+  - cbn [pp_posts app]. rewrite skip1; [|discriminate|split; [discriminate|intros _; discriminate]]. exact I.
 Qed.
 
 Lemma ta_err ps p r ov b rest :
   lower_posts ps = true -> is_capitalized r = false -> follow b rest ->
-  type_assignable (C p (TIdent r :: pp_posts ps ++ rest) ov b) = Err.
+  is_err (type_assignable (C p (TIdent r :: pp_posts ps ++ rest) ov b)).
 Proof.
   intros L Hr F. unfold type_assignable. cbn [token post]. rewrite Hr.
   destruct ps as [|n' ps'|k ps'|args ps']; cbn [pp_posts app].
   - rewrite skip1; [|discriminate|apply follow_is_clean; exact F].
-    unfold expect. rewrite follow_not_dot by exact F. reflexivity.
+    unfold expect. rewrite follow_not_dot by exact F. exact I.
   - cbn [lower_posts] in L. apply andb_prop in L. destruct L as [L1 L2]. apply negb_true_iff in L1.
     rewrite skip1; [|discriminate|split; [discriminate|intros _; discriminate]].
     unfold expect, is_k. cbn [token post tok_is kw_eqb bind].
     rewrite skip1; [|discriminate|split; [discriminate|intros _; discriminate]].
     apply ta_inner_err; [exact L2|exact L1|exact F|].
     unfold local_fuel. cbn [post length]. rewrite app_length. lia.
-  - rewrite skip1; [|discriminate|split; [discriminate|intros _; discriminate]]. reflexivity.
-  - rewrite skip1; [|discriminate|split; [discriminate|intros _; discriminate]]. reflexivity.
+  - rewrite skip1; [|discriminate|split; [discriminate|intros _; discriminate]]. exact I.
+  - rewrite skip1; [|discriminate|split; [discriminate|intros _; discriminate]]. exact I.
 Qed.
 
 Lemma prec_ident q p r ps rest ov b f a c1 :
@@ -452,7 +454,9 @@ Lemma prec_ident q p r ps rest ov b f a c1 :
   go T (S f) (QPrec q (C p (TIdent r :: pp_posts ps ++ rest) ov b)) = go T f (QLoop q (EGet a) c1).
 Proof.
   intros Hr L F Ha. rewrite go_S. cbn [step]. unfold step_prec, prefix. cbn [token post].
-  rewrite ta_err by assumption. cbv iota. unfold assignable_p. cbn [token post].
+  pose proof (ta_err ps p r ov b rest L Hr F) as E.
+  destruct (type_assignable (C p (TIdent r :: pp_posts ps ++ rest) ov b)); try contradiction.
+  cbv iota. unfold assignable_p. cbn [token post].
   rewrite skip1; [|discriminate|apply posts_clean; exact F].
   rewrite !run_ptry. unfold call_A. cbn [run]. rewrite Ha. cbn [get_A get_E run ok ptry]. apply run_call.
 Qed.
